@@ -224,10 +224,10 @@ class Interp(ExprMixin):
         if q is not None:
             if q in self.reg.real_to_ctor:
                 return self.construct_data(q, args, kwargs, node)
+            if q in self.reg.externals:          # an explicit model of the callable wins over constructing a declared class
+                return self.reg.externals[q](self, args, kwargs, node)
             if q in self.reg.classes:
                 return self.construct_obj(q, args, kwargs, node)
-            if q in self.reg.externals:
-                return self.reg.externals[q](self, args, kwargs, node)
             if q in self.reg.contracts:
                 return self.call_function(q, None, args, kwargs, node)
         h = getattr(fn, "call", None)
